@@ -45,6 +45,11 @@ pub struct SessionSpec {
     pub global_dedup: bool,
     pub with_file_info: bool,
     pub files: Vec<FileSpec>,
+    /// the session runs as *another process* sharing the shard cache directory of `cache_id`: it has its own manager
+    /// objects (own directory holding a copy of the shared cache as of its start); the shard files it adds appear in
+    /// the shared directory afterwards, without any in-process registration
+    #[serde(default)]
+    pub foreign: bool,
 }
 
 #[derive(Clone, Debug, Serialize, Deserialize, PartialEq)]
@@ -311,6 +316,7 @@ pub fn gen(seed: u64, run: u64, focus: &str, tier: Tier) -> Plan {
             global_dedup: rng.chance(1, 2),
             with_file_info: rng.chance(1, 3),
             files,
+            foreign: false,
         });
     }
     match focus {
@@ -318,6 +324,15 @@ pub fn gen(seed: u64, run: u64, focus: &str, tier: Tier) -> Plan {
             plan.enumerate_faults = true;
         },
         _ => {},
+    }
+    // another process sharing a shard cache directory: one session in five (never in the fault-enumerating runs)
+    if focus != "C16" && plan.sessions.len() >= 2 {
+        let mut frng = Rng::stream(seed, run, "session-foreign");
+        for ss in plan.sessions.iter_mut() {
+            if frng.chance(1, if focus == "C11" { 4 } else { 8 }) {
+                ss.foreign = true;
+            }
+        }
     }
     plan
 }
@@ -454,8 +469,20 @@ impl utils::verif::Hooks for ClockHooks {
 }
 
 fn make_config(dir: &Path, cache_id: u8, salt_id: u8, global_dedup: bool) -> Arc<data::configurations::TranslatorConfig> {
+    make_config_in(dir, &format!("client{cache_id}"), salt_id, global_dedup)
+}
+
+fn plain_files(dir: &Path) -> Vec<(PathBuf, String)> {
+    let mut v: Vec<(PathBuf, String)> = std::fs::read_dir(dir)
+        .map(|rd| rd.flatten().filter(|e| e.path().is_file()).map(|e| (e.path(), e.file_name().to_string_lossy().to_string())).collect())
+        .unwrap_or_default();
+    v.sort();
+    v
+}
+
+fn make_config_in(dir: &Path, client_dir: &str, salt_id: u8, global_dedup: bool) -> Arc<data::configurations::TranslatorConfig> {
     use data::configurations::*;
-    let xet = dir.join(format!("client{cache_id}"));
+    let xet = dir.join(client_dir);
     std::fs::create_dir_all(&xet).unwrap();
     Arc::new(TranslatorConfig {
         data_config: DataConfig {
@@ -532,8 +559,22 @@ pub fn run_world(plan: &Plan, faults: &[FaultSpec], trace: bool) -> (World, Scra
         let mut outs = Vec::new();
         let mut configs = Vec::new();
         for (si, ss) in plan2.sessions.iter().enumerate() {
-            let cfg = make_config(&dir, ss.cache_id, ss.salt_id, ss.global_dedup);
+            let shared_cache = make_config(&dir, ss.cache_id, ss.salt_id, ss.global_dedup).shard_config.cache_directory.clone();
+            let cfg = if ss.foreign {
+                make_config_in(&dir, &format!("client{}-process{si}", ss.cache_id), ss.salt_id, ss.global_dedup)
+            } else {
+                make_config(&dir, ss.cache_id, ss.salt_id, ss.global_dedup)
+            };
             std::fs::create_dir_all(&cfg.shard_config.cache_directory).unwrap();
+            std::fs::create_dir_all(&shared_cache).unwrap();
+            if ss.foreign {
+                // the other process sees what the shared directory holds when it starts
+                for (path, name) in plain_files(&shared_cache) {
+                    if name.ends_with(".mdb") && !name.starts_with('.') {
+                        let _ = std::fs::copy(&path, cfg.shard_config.cache_directory.join(&name));
+                    }
+                }
+            }
             {
                 let mut s = st.lock().unwrap();
                 s.session = si;
@@ -547,6 +588,17 @@ pub fn run_world(plan: &Plan, faults: &[FaultSpec], trace: bool) -> (World, Scra
             let mut out = run_session(si, ss, cfg.clone(), store.clone(), st.clone(), &pool, plan2.schedule_seed).await;
             out.put_range = (put0, st.lock().unwrap().puts.len());
             out.shard_range = (shard0, st.lock().unwrap().shards.len());
+            if ss.foreign {
+                // what the other process added appears in the shared directory (temp name, then rename)
+                for (path, name) in plain_files(&cfg.shard_config.cache_directory) {
+                    if name.ends_with(".mdb") && !name.starts_with('.') && !shared_cache.join(&name).exists() {
+                        let tmp = shared_cache.join(format!(".{name}.other-process"));
+                        if std::fs::copy(&path, &tmp).is_ok() {
+                            let _ = std::fs::rename(&tmp, shared_cache.join(&name));
+                        }
+                    }
+                }
+            }
             let hung = out.hung;
             if matches!(out.finalize, Some(Ok(_))) {
                 for (fi, fo) in out.files.iter_mut().enumerate() {
@@ -1235,6 +1287,7 @@ pub fn evaluate(ctx: &EvalCtx, w: &World, rep: &mut RunReport) {
     }
 
     // ---- bookkeeping for evidence
+    rep.count("probe:sessions_run_as_another_process_sharing_the_shard_cache", ctx.plan.sessions.iter().take(w.sessions.len()).filter(|s| s.foreign).count() as u64);
     rep.count("store_puts", st.puts.len() as u64);
     rep.count("store_shard_uploads", st.shards.len() as u64);
     rep.count("store_global_dedup_queries", st.queries);
@@ -1412,7 +1465,7 @@ impl Engine for SessionEngine {
             _ => rep.nontrivial,
         };
         rep.sample = Some(json!({
-            "sessions": p.sessions.iter().map(|s| json!({"files": s.files.len(), "cache": s.cache_id, "salt": s.salt_id, "global_dedup": s.global_dedup})).collect::<Vec<_>>(),
+            "sessions": p.sessions.iter().map(|s| json!({"files": s.files.len(), "cache": s.cache_id, "salt": s.salt_id, "global_dedup": s.global_dedup, "other_process": s.foreign})).collect::<Vec<_>>(),
             "files": n_files, "latency_mode": p.latency_mode, "store_calls": {"put": n_put, "upload_shard": n_shard, "query": n_query},
             "enumerate_faults": p.enumerate_faults, "explicit_faults": p.faults.len(),
         }));
